@@ -368,12 +368,20 @@ def Fn.prox (E : Env K) : Fn K → List K → Sig K → List K → List K
       let diff := idxMap x fun i xi => xi - sig.scalar * gAt g i
       let den := (pwNorm E.sqrt pw d m diff).map fun t => maxK t lam / lam
       idxMap diff fun i di => di / den.getD (i % m) 1
-  | .trans f y, w, sig, x =>
+  | .trans f y, w, .sc s, x =>
       (proxTranslation (fun sg v => Vec.mk (f.prox E w (.sc sg) v.data))
-        (Vec.mk y) sig.scalar (Vec.mk x)).data
-  | .argScale f c, w, sig, x =>
+        (Vec.mk y) s (Vec.mk x)).data
+  | .trans f y, w, .vec v, x =>
+      -- the step (one float per summand / a point-wise element) is passed through unchanged
+      List.zipWith (· + ·) y (f.prox E w (.vec v) (List.zipWith (· - ·) x y))
+  | .argScale f c, w, .sc s, x =>
       (proxArgScaling0 (fun sg v => Vec.mk (f.prox E w (.sc sg) v.data))
-        c sig.scalar (Vec.mk x)).data
+        c s (Vec.mk x)).data
+  | .argScale f c, w, .vec v, x =>
+      -- `_scaled_stepsize(sigma, scaling**2)`: a sequence of steps is scaled entry-wise
+      if c < 0 ∨ 0 < c then
+        (f.prox E w ((Sig.vec v).scale (c * c)) (x.map (c * ·))).map ((1 / c) * ·)
+      else x
   | .leftScale f c, w, sig, x => f.prox E w (sig.scale c) x
   | .quad f a u, w, sig, x =>
       (proxQuadPerturb (fun t => 1 / E.sqrt t)
@@ -408,8 +416,9 @@ def Fn.ok : Fn K → Sig K → Nat → Bool
   | .huber _, sig, _ | .klcc _ _, sig, _ | .l2 _ _, sig, _ => sig.isScalar
   | .l1l2 pw d _ _, sig, n | .ccl1l2 pw d _ _, sig, n =>
       sig.isScalar && 0 < d && n % d == 0 && pw.length == d
-  | .trans f y, sig, n => sig.isScalar && y.length == n && f.ok sig n
-  | .argScale f _, sig, n | .quad f _ _, sig, n | .conj f, sig, n =>
+  | .trans f y, sig, n => y.length == n && f.ok sig n
+  | .argScale f c, sig, n => f.ok (if sig.isScalar then sig else sig.scale (c * c)) n
+  | .quad f _ _, sig, n | .conj f, sig, n =>
       sig.isScalar && f.ok sig n
   | .leftScale f _, sig, n => f.ok sig n
   | .sep k f rest, sig, n =>
